@@ -244,11 +244,14 @@ struct Tally {
     accepted_msg: u64,
     first_bad: Option<(&'static str, String, Vec<u8>)>,
     bad: u64,
+    /// byte strings on which a parser panicked (C10's clause; the shortest one is kept)
+    panics: u64,
+    first_panic: Option<Vec<u8>>,
 }
 
 impl Tally {
     fn new() -> Self {
-        Tally { evaluated: 0, accepted_hdr: 0, accepted_msg: 0, first_bad: None, bad: 0 }
+        Tally { evaluated: 0, accepted_hdr: 0, accepted_msg: 0, first_bad: None, bad: 0, panics: 0, first_panic: None }
     }
     fn feed(&mut self, b: &[u8]) {
         self.evaluated += 1;
@@ -260,6 +263,12 @@ impl Tally {
         }
         if let Some((k, m)) = compare(b) {
             self.bad += 1;
+            if k == "parser-panic" {
+                self.panics += 1;
+                if self.first_panic.as_ref().is_none_or(|old| b.len() < old.len()) {
+                    self.first_panic = Some(b.to_vec());
+                }
+            }
             let better = match &self.first_bad {
                 None => true,
                 Some((_, _, old)) => b.len() < old.len(),
@@ -274,6 +283,12 @@ impl Tally {
         self.accepted_hdr += o.accepted_hdr;
         self.accepted_msg += o.accepted_msg;
         self.bad += o.bad;
+        self.panics += o.panics;
+        match (&self.first_panic, o.first_panic) {
+            (None, x) => self.first_panic = x,
+            (Some(a), Some(x)) if x.len() < a.len() => self.first_panic = Some(x),
+            _ => {}
+        }
         match (&self.first_bad, o.first_bad) {
             (None, x) => self.first_bad = x,
             (Some((_, _, a)), Some(x)) if x.2.len() < a.len() => self.first_bad = Some(x),
@@ -571,6 +586,44 @@ pub fn run(ctx: &Ctx) -> Outcome {
     out
 }
 
+/// C10's share of the byte-string enumeration: the same strings as C11's parser parts, judged only for
+/// "the parsers are total" (a panic in `deserialize` runs in the dispatcher before demultiplexing, so one
+/// datagram from anybody would take the whole socket down). Disagreements with the reference are C11's.
+pub fn totality(ctx: &Ctx) -> Outcome {
+    let mut out = Outcome::default();
+    let seeds: Vec<u64> = if ctx.seed == 0 { vec![0, 0x5eed] } else { vec![0, ctx.seed] };
+    let max_links = ctx.tier.pick(2, 3);
+    let fb = first_bytes(&seeds);
+    let st = structural(max_links, &seeds);
+    for (name, t, bound) in [
+        ("parser-totality:first-byte-and-lengths", &fb, "all 256 first bytes x 4 ext bytes x 5 lengths; all lengths 0..=40 x 5 types".to_string()),
+        ("parser-totality:extension-chain-shapes", &st, format!("chains of 0..={max_links} links, ids {EXT_IDS:?}, declared lengths {EXT_LENS:?}, last next-pointer in {{0,1,3,7}}, 0..=2 payload bytes, 5 types, truncated at EVERY byte boundary, {} filler patterns", seeds.len())),
+    ] {
+        let mut p = Part::mc(name);
+        p.states = t.evaluated;
+        p.transitions = t.evaluated;
+        p.distinct_outcomes = 2 + (t.panics > 0) as u64;
+        p.bound = bound;
+        p.extra.insert("accepted_as_header".into(), json!(t.accepted_hdr));
+        p.extra.insert("rejected".into(), json!(t.evaluated - t.accepted_hdr));
+        p.extra.insert("panics".into(), json!(t.panics));
+        if t.accepted_hdr == 0 || t.accepted_hdr == t.evaluated {
+            machinery_error(&format!("wire part {name} is vacuous: accepted {} of {}", t.accepted_hdr, t.evaluated));
+        }
+        if let Some(b) = &t.first_panic {
+            out.violations.push(Violation {
+                property: "C10".into(),
+                monitor: "parser-totality".into(),
+                signature: "parse/panic".into(),
+                detail: format!("UtpHeader::deserialize / UtpMessage::deserialize panicked on {} of {} byte strings; shortest: bytes={}", t.panics, t.evaluated, hex(b)),
+                replay: json!({"engine":"exhaust","check":"wire","mode":"parse","bytes": b}),
+            });
+        }
+        out.parts.push(p);
+    }
+    out
+}
+
 pub fn hex(b: &[u8]) -> String {
     b.iter().map(|x| format!("{x:02x}")).collect()
 }
@@ -582,7 +635,7 @@ pub fn replay(r: &Value) -> i32 {
         .unwrap_or_default();
     println!("bytes = {}", hex(&bytes));
     println!("reference header: {:?}", ref_parse_header(&bytes));
-    println!("library   header: {:?}", UtpHeader::deserialize(&bytes));
+    println!("library   header: {:?}", std::panic::catch_unwind(|| UtpHeader::deserialize(&bytes)).map_err(|_| "PANIC"));
     match r["mode"].as_str().unwrap_or("parse") {
         "roundtrip" => {
             // bytes are what the library serialised; parsing them back and serialising again must be stable
